@@ -368,7 +368,11 @@ def oracle(ctx, cfg, labels, trace, a_end, complete, case, a_start=None):
             n_close = sum(1 for f in A["frames"] if f.startswith("C"))
             if A["cc"] != pcode or n_close != 1 or A["ex"] != "-":
                 over = any(p["c"] == "1" and p["cc"] == pcode for p in P[k:a_end])
+                # structural: the peer's code was already recorded on the closed session, then a close() whose read() had been
+                # woken for that very CLOSE found the queue empty (receive() took the message) -> EofStream -> 1006
+                stolen = over and n_close == 1 and A["cc"] == "1006" and A["ex"] == "eof"
                 ctx.violation("C13/close-code/receive-overwrites-code-of-closed-session" if (over and n_close == 1 and A["ex"] == "-")
+                              else "C13/close-code/close-overwrites-peer-code-after-receive-took-the-close" if stolen
                               else "C13/peer-close-received/not-a-clean-end", case,
                               f"peer's CLOSE({pcode}) was received and nothing went wrong afterwards, but the session ended with close code "
                               f"{A['cc']}, {n_close} CLOSE frame(s) sent, exception {A['ex']}: {trace[a_end]}")
@@ -629,6 +633,8 @@ def check(ctx):
         (cli, [("call", 0, "recv"), ("tick",), ("peer", "bad")]),
         (dict(srv, heartbeat=2000), [("call", 0, "recv"), ("tick",), ("tick",), ("tick",), ("tick",), ("peer", "bad"), ("tick",), ("tick",)]),
         (cli, [("call", 1, "recv"), ("call", 0, "close", 1000), ("call", 2, "close", 1000), ("tick",), ("tick",), ("peer", "close", 1001)]),
+        (cli, [("call", 0, "recv"), ("tick",), ("call", 2, "close", 1000), ("call", 1, "close", 1000), ("tick",), ("tick",),
+               ("peer", "close", 1001)]),
     ]
     run_and_judge(ctx, directed, "directed-findings")
     # receive() on a closed session, repeatedly (server: THRESHOLD_CONNLOST_ACCESS boundary)
